@@ -36,6 +36,11 @@ pub fn one(out: &mut Out, s: &str) {
     let json = serde_json::to_string(s).unwrap();
     let de: Option<String> = serde_json::from_str::<PackageName>(&json).ok().map(|n| n.to_string());
     let e_de: Option<String> = serde_json::from_str::<ExtraName>(&json).ok().map(|n| n.to_string());
+    // … and from JSON sources that cannot lend a borrowed string (escaped literal, owned value)
+    let (p3, e3) = (de_sources::<PackageName>(s).map(|o| o.map(|n| n.to_string())), de_sources::<ExtraName>(s).map(|o| o.map(|n| n.to_string())));
+    if p3.iter().any(|x| *x != de) || e3.iter().any(|x| *x != e_de) {
+        out.oracle_fail("C09", &format!("deserialization depends on how the JSON string is written / owned: PackageName {:?}, ExtraName {:?}", p3, e3), serde_json::json!({"name_hex": hex(s), "name": s}));
+    }
     let dist = PackageName::from_str(s).ok().map(|n| n.as_dist_info_name().to_string());
     let want = spec(s);
 
